@@ -883,3 +883,25 @@ def live_walk(n, known):
             for v in reversed(x):
                 if isinstance(v, (dict, list)):
                     stack.append(v)
+
+
+def reach_fields(e, env, depth=6):
+    """Names of all struct fields read on the way to the value of `e`: the expression itself and, transitively (bounded), the
+    initialisers / scrutinees / iterables of the locals it mentions.  A coarse but pattern-proof dependency set: use it where the
+    precise provenance is lost in a slice pattern or a collected vector."""
+    out = set()
+    seen = set()
+    work = [(e, env, depth)]
+    while work:
+        x, en, d = work.pop()
+        if x is None or id(x) in seen:
+            continue
+        seen.add(id(x))
+        for n in walk(x):
+            if n["k"] == "Field":
+                out.add(str(n.get("member")))
+            elif n["k"] == "Path" and "::" not in n["path"] and en is not None and d > 0:
+                df = en.get(n["path"])
+                if df is not None and df.init is not None:
+                    work.append((df.init, df.env, d - 1))
+    return out
